@@ -69,14 +69,14 @@ type SiteInfo struct {
 }
 
 type CheckOpts struct {
-	Tier     string
-	Seed     uint64
-	Workers  int
-	VerifDir string
-	Scratch  string // scratch dir for worker result files
-	TreeFP   string
+	Tier      string
+	Seed      uint64
+	Workers   int
+	VerifDir  string
+	Scratch   string // scratch dir for worker result files
+	TreeFP    string
 	SitesJSON string
-	MaxWall  time.Duration
+	MaxWall   time.Duration
 }
 
 // Check is the parent: replays known witnesses, fans out workers, merges,
@@ -163,6 +163,7 @@ func Check(p Property, o CheckOpts) int {
 	}
 	merged := NewStats()
 	var results []WorkerResult
+	var digests []string
 	keyCounts := map[string]uint64{}
 	var found []Found
 	var cases uint64
@@ -183,7 +184,7 @@ func Check(p Property, o CheckOpts) int {
 				os.MkdirAll(filepath.Dir(rp), 0o755)
 				os.WriteFile(rp, mustJSON(map[string]interface{}{"property": id, "seed": o.Seed, "run_index": idx,
 					"violation": Violation{Class: "fatal-crash", Site: "process", Detail: "worker process died twice on this run index"},
-					"replay": fmt.Sprintf("sim worker -prop %s -tier %s -seed %d -lo %d -hi %d -stride 1", id, o.Tier, o.Seed, idx, idx+1)}), 0o644)
+					"replay":    fmt.Sprintf("sim worker -prop %s -tier %s -seed %d -lo %d -hi %d -stride 1", id, o.Tier, o.Seed, idx, idx+1)}), 0o644)
 				violationLines = append(violationLines, fmt.Sprintf("VIOLATION property=%s replay=%s", id, rp))
 				exit = 1
 				continue
@@ -206,6 +207,7 @@ func Check(p Property, o CheckOpts) int {
 			return 2
 		}
 		results = append(results, r)
+		digests = append(digests, r.Digest)
 		for k, v := range r.Counters { // order-insensitive: sums / maxima
 			if strings.HasPrefix(k, "max_") {
 				if merged.C[k] < v {
@@ -304,25 +306,26 @@ func Check(p Property, o CheckOpts) int {
 		evals = cases
 	}
 	cov := map[string]interface{}{
-		"evaluations":         evals,
-		"distinct_nontrivial": len(merged.Distinct),
-		"rule":                info.Rule,
-		"samples":             merged.Samples,
-		"cases":               cases,
-		"planned_cases":       plan.Cases,
-		"schedules_per_case":  plan.Schedules,
-		"truncated_by_deadline": truncated,
-		"runs_per_hour":       int64(float64(evals) / wall * 3600),
-		"simulated_steps":     merged.C["sim_steps"],
-		"simulated_time":      "none: the library has no clock or timer; progress is measured in simulated steps",
-		"counters":            merged.C,
-		"s1_sites":            siteKinds,
+		"evaluations":              evals,
+		"distinct_nontrivial":      len(merged.Distinct),
+		"rule":                     info.Rule,
+		"samples":                  merged.Samples,
+		"cases":                    cases,
+		"planned_cases":            plan.Cases,
+		"schedules_per_case":       plan.Schedules,
+		"truncated_by_deadline":    truncated,
+		"runs_per_hour":            int64(float64(evals) / wall * 3600),
+		"simulated_steps":          merged.C["sim_steps"],
+		"simulated_time":           "none: the library has no clock or timer; progress is measured in simulated steps",
+		"counters":                 merged.C,
+		"s1_sites":                 siteKinds,
 		"violations_by_class_site": keyCounts,
-		"known_findings_seen": knownSeen,
-		"unlisted_violations": unlisted,
-		"components_real":      info.Real,
-		"components_simulated": info.Simulated,
-		"workers":             W,
+		"known_findings_seen":      knownSeen,
+		"unlisted_violations":      unlisted,
+		"components_real":          info.Real,
+		"components_simulated":     info.Simulated,
+		"workers":                  W,
+		"event_log_digests":        digests,
 	}
 	ev := map[string]interface{}{
 		"property_id": id,
